@@ -51,6 +51,10 @@ Enter    == /\ (pending # <<>> \/ Len(ctx) + Len(pending) < MaxCtx)      \* the 
                IN ctx' = Append(ctx, [saved |-> sv])
             /\ pending' = IF pending = <<>> THEN pending ELSE Tail(pending)
             /\ Observe("enter", [bind EXCEPT ![1] = "checked"])
+\* a manager built with a non-default threshold and entered at once (as coded the parameter is ignored: same binding)
+EnterT   == /\ Len(ctx) + Len(pending) < MaxCtx
+            /\ ctx' = Append(ctx, [saved |-> bind[1]]) /\ UNCHANGED pending
+            /\ Observe("enter_t", [bind EXCEPT ![1] = "checked"])
 Exit(a)  == /\ ctx # <<>>
             /\ LET top == ctx[Len(ctx)]
                    b2 == IF ~ExitGuard THEN [bind EXCEPT ![1] = top.saved]            \* pinned code
@@ -61,7 +65,7 @@ Exit(a)  == /\ ctx # <<>>
             /\ ctx' = SubSeq(ctx, 1, Len(ctx) - 1) /\ UNCHANGED pending
 
 Next == /\ bad = "" /\ Len(hist) < MaxLen
-        /\ (Arm \/ Activate("activate") \/ Activate("activate_add") \/ Remove \/ New \/ Enter \/ Exit("exit") \/ Exit("exit_exc"))
+        /\ (Arm \/ Activate("activate") \/ Activate("activate_add") \/ Remove \/ New \/ Enter \/ EnterT \/ Exit("exit") \/ Exit("exit_exc"))
 Spec == Init /\ [][Next]_vars
 
 DesignOK == bad = ""
